@@ -972,7 +972,9 @@ impl Arena {
       return Err(Error::ReadOnly);
     }
 
-    if mem::size_of::<T>() == 0 {
+    // a zero-sized `T` needs no room of its own, but the buffer still has to start at an offset that is
+    // aligned for it: only requests that need no alignment (or no bytes at all) are plain byte requests
+    if mem::size_of::<T>() == 0 && (mem::align_of::<T>() == 1 || extra == 0) {
       return self.alloc_bytes_in(extra);
     }
 
